@@ -31,7 +31,7 @@ class C09(Spec):
         return impl == model
 
     def corpus(self):
-        return ["M 3 6 60 -1", "M 2 4 200 30", "M 1 2 20 0", "M 4 8 100 50", "I 1", "I 2", "I 4", "I 8", "I 3", "I 6", "B 1", "B 2", "B 4", "B 2", "B 1", "R 4 300", "R 2 300", "R 1 200"]
+        return ["M 3 6 60 -1", "M 2 4 200 30", "M 1 2 20 0", "M 4 8 100 50", "I 1", "I 2", "I 4", "I 8", "I 3", "I 6", "B 1", "B 2", "B 4", "B 2", "B 1", "R 4 300", "R 2 300", "R 1 200", "R2 1 200", "R2 3 200"]
 
     def gen(self, rng, tier):
         cases = []
@@ -50,6 +50,10 @@ class C09(Spec):
             return "multi-threaded harness %s on %s" % (impl, case)
         t = case.split()
         f = dict(x.split("=") for x in impl.split()[1:])
+        if t[0] == "R2":
+            if f["lost"] != "0" or f["both"] != t[2]:
+                return "two Endpoint::requestLoad in flight at a time, %s rounds: both answered in %s, not in %s (%s)" % (t[2], f["both"], f["lost"], case)
+            return None
         if t[0] == "R":
             if f["lost"] != "0" or f["got"] != t[2]:
                 return "Endpoint::requestLoad asked %s times in a row under load: %s answered, %s never answered (%s)" % (t[2], f["got"], f["lost"], case)
@@ -75,7 +79,7 @@ class C09(Spec):
 
     def nontrivial(self, case, impl):
         t = case.split()
-        return int(t[1]) > 1 and (t[0] in "IBR" or int(t[2]) > 1)
+        return int(t[1]) > 1 and (t[0] in ("I", "B", "R", "R2") or int(t[2]) > 1)
 
     def kind(self, case, impl):
         t = case.split()
@@ -83,8 +87,8 @@ class C09(Spec):
             return "w%s-shutdown-at-once" % t[1]
         if t[0] == "B":
             return "w%s-blocking-serve-polled" % t[1]
-        if t[0] == "R":
-            return "w%s-load-asked-repeatedly" % t[1]
+        if t[0] in ("R", "R2"):
+            return "w%s-load-asked-%s" % (t[1], "repeatedly" if t[0] == "R" else "twice-at-once")
         return "w%s-%s" % (t[1], "shutdown-under-load" if int(t[4]) >= 0 else "full-load")
 
 
